@@ -76,6 +76,30 @@ func (c *ctx) buildPlan(n int) []planned {
 			plan = append(plan, planned{func(scn string) Event { return doDecodeSecret(scn, secret) }})
 		}
 	}
+	// bursts of OCRA calls that share ONE suite (a registered name, then one hand-built configuration) but have
+	// different secrets and inputs: anything cached or shared per suite must not carry data between calls
+	for b := 0; b < 3; b++ {
+		var sa suiteArg
+		if b%2 == 0 && len(names) > 0 {
+			x, err := rawSuiteArg(names[c.rng.Intn(len(names))])
+			if err != nil {
+				continue
+			}
+			sa = x
+		} else {
+			sa = cfgSuiteArg(c.handBuilt(c.rng.Intn(32)|2, c.rng.Intn(3), 4+c.rng.Intn(7), c.randBytes([]int{0, 24, 140}[c.rng.Intn(3)])))
+		}
+		at := c.rng.Intn(len(plan) + 1)
+		var burst []planned
+		for k := 0; k < 16; k++ {
+			key := c.someKey()
+			secret := b32(key)
+			in := c.admissibleInput(sa.su.Cfg, k)
+			suite := sa
+			burst = append(burst, planned{func(scn string) Event { return doGenerateOCRA(scn, secret, suite, in) }})
+		}
+		plan = append(plan[:at], append(burst, plan[at:]...)...)
+	}
 	// bursts: several goroutines ask for the same never-seen suite string / 9-10 digit codes at the same moment
 	for b := 0; b < 4; b++ {
 		name := c.grammarName()
